@@ -596,4 +596,35 @@ BitmapLenRule(n) ==
      /\ pg.ok /\ pg.n = n /\ Len(pg.S.bm) = BitmapLen(n) /\ pg.S = S
      /\ Len(pg.S.bb) = (IF n > 0 THEN 8 ELSE 0)
      /\ LET D == DecAll(pg.S, n) IN D.ok /\ D.recs = recs /\ D.cur = EndCur(S)
+
+\* The streams of ONE encoded glyph as a stream record of its own (a bitmap of one word).
+OneGlyphStreams(e) == [nc |-> e.nc, np |-> e.np, fl |-> e.fl, gl |-> e.gl, co |-> e.co,
+                       bm |-> <<128 * e.bit, 0, 0, 0>>, bb |-> e.bb, ins |-> e.ins]
+
+\* Position independence of WE_HAVE_INSTRUCTIONS in a composite glyph `rec` (well-formed: MORE_COMPONENTS on
+\* exactly the non-last components, instructions only when some component carries bit 8):
+\*  - the glyph stream holds an instructionLength iff SOME component has the bit, wherever it sits;
+\*  - the glyph decodes to itself and consumes its streams exactly;
+\*  - moving the bit onto any single component p leaves the glyph, bbox and instruction streams unchanged,
+\*    and that variant decodes to itself with the same instructions (so a decoder that looks at one fixed
+\*    position - the last, the first - contradicts the rule for some p).
+CompInstrAnywhere(rec, ch) ==
+  LET k == Len(rec.comps)
+      hasI == \E j \in 1 .. k : Bit(rec.comps[j].flags, 8) = 1
+      E == EncGlyph(rec, ch)
+      Moved(p) == [rec EXCEPT !.comps = [j \in 1 .. k |->
+                     [rec.comps[j] EXCEPT !.flags = (@ - 256 * Bit(@, 8)) + (IF j = p THEN 256 ELSE 0)]]]
+  IN /\ rec.kind = "composite" /\ k >= 1
+     /\ \A j \in 1 .. k : Bit(rec.comps[j].flags, 5) = (IF j < k THEN 1 ELSE 0)
+     /\ (hasI <=> E.gl # <<>>)
+     /\ (~hasI => rec.instr = <<>> /\ E.ins = <<>>)
+     /\ LET d == DecGlyphAt(OneGlyphStreams(E), Cur0, 0)
+        IN d.ok /\ d.rec = rec /\ d.cur = EndCur(OneGlyphStreams(E))
+     /\ (hasI => \A p \in 1 .. k :
+           LET m == Moved(p)
+               e == EncGlyph(m, ch)
+               d == DecGlyphAt(OneGlyphStreams(e), Cur0, 0)
+           IN /\ e.gl = E.gl /\ e.ins = E.ins /\ e.bb = E.bb /\ Len(e.co) = Len(E.co)
+              /\ d.ok /\ d.rec = m /\ d.rec.instr = rec.instr
+              /\ d.cur.gl = Len(E.gl) /\ d.cur.ins = Len(rec.instr))
 =============================================================================
